@@ -3,6 +3,7 @@ import Driver.C20
 import Driver.C13
 import Driver.C10
 import Driver.C03
+import Driver.C05
 /-!
 Line-protocol driver.  Reads one JSON object per line on stdin, each with a field `p`
 naming the property slice and an `id`; writes one JSON object per line with the same `id`
@@ -16,6 +17,7 @@ def dispatch (j : Json) : Json :=
   | "C13" => Driver.C13.handle j
   | "C10" => Driver.C10.handle j
   | "C03" => Driver.C03.handle j
+  | "C05" => Driver.C05.handle j
   | "C01" => Driver.C03.handle j
   | "C02" => Driver.C03.handle j
   | p => Json.mkObj [("bad-op", Json.str p)]
